@@ -26,6 +26,8 @@ BODIES = {"B1": "keep;\r\n", "B2": "# two\r\nif true {\r\n  stop;\r\n}", "B3": "
 # a script of several read blocks (the client reads 4096 octets at a time), with lines that look like protocol
 BODIES["B10"] = "".join("# rule %d\r\nif header :contains \"subject\" \"OK {%d}\" { fileinto \"f%d\"; }\r\nNO\r\n" % (k, k, k)
                         for k in range(90))
+# ... and one of more than a mebibyte (no limit applies to what a server may hold)
+BODIES["B11"] = "".join("# line %d of a very long script: OK {%d}\r\n" % (k, k) for k in range(30000))
 NAMES = ["a", "b", "c"]
 STEP_VERB = {"list": "LISTSCRIPTS", "get": "GETSCRIPT", "put": "PUTSCRIPT", "setactive": "SETACTIVE", "delete": "DELETESCRIPT"}
 
@@ -303,7 +305,7 @@ def tlc_rename(tier):
 
 def tlc_sessions(maxops, simulate, seed, ops):
     defs = ('MCInit == {[scripts |-> ("a" :> "B1") @@ ("b" :> "B2"), active |-> "a"], [scripts |-> <<>>, active |-> ""],'
-            ' [scripts |-> ("a" :> "B10") @@ ("b" :> "B2"), active |-> "b"],'
+            ' [scripts |-> ("a" :> "B10") @@ ("b" :> "B2"), active |-> "b"], [scripts |-> ("b" :> "B11") @@ ("a" :> "B1"), active |-> "a"],'
             ' [scripts |-> ("r{2}" :> "B4"), active |-> ""]}\n')
     cfg = ("SPECIFICATION Spec\nCONSTANTS\n Names = {\"a\", \"b\", \"r{2}\"}\n Bodies = {\"B1\", \"B2\", \"B3\", \"B4\", \"B5\", \"B6\", \"B7\", \"B8\", \"B9\", \"B10\"}\n"
            " MaxOps = %d\n InitStores <- MCInit\n OpKinds = {%s}\nINVARIANT Emit\nINVARIANT WellFormed\nCHECK_DEADLOCK FALSE\n"
